@@ -359,6 +359,9 @@ func main() {
 		for _, c := range la.closes {
 			fmt.Printf("close %-45s %-40s %-20s %s\n", c.file, c.fn, c.ch, c.guard)
 		}
+		for _, e := range la.lockOrder() {
+			fmt.Printf("order %s -> %s\n", e[0], e[1])
+		}
 		return
 	}
 	var defs []string
@@ -1243,6 +1246,43 @@ func main() {
 			atomicIDs = atomicIDs && ok
 		}
 		def("nextid_atomic", "bool", coqBool(atomicIDs), "mux_broker.go / grpc_broker.go NextId: the whole body is `return atomic.AddUint32(&m.nextId, 1)`")
+		// lock order: who may wait for which mutex while holding which; with a topological numbering as certificate
+		{
+			edges := la.lockOrder()
+			var locks []string
+			for _, st := range la.structs {
+				for l := range st.locks {
+					locks = append(locks, st.name+":"+l)
+				}
+			}
+			sort.Strings(locks)
+			ranks := lockRanks(edges, locks)
+			var eb, rb strings.Builder
+			eb.WriteString("[")
+			for i, e := range edges {
+				if i > 0 {
+					eb.WriteString("; ")
+				}
+				fmt.Fprintf(&eb, "(%q, %q)", e[0], e[1])
+			}
+			eb.WriteString("]%string")
+			rb.WriteString("[")
+			first := true
+			for _, l := range locks {
+				r, ok := ranks[l]
+				if !ok {
+					continue
+				}
+				if !first {
+					rb.WriteString("; ")
+				}
+				first = false
+				fmt.Fprintf(&rb, "(%q, %d%%nat)", l, r)
+			}
+			rb.WriteString("]%string")
+			def("lock_order_edges", "list (string * string)", eb.String(), "pairs (held, wanted): some goroutine may try to acquire `wanted` while holding `held`, directly or through a synchronous call (locks named Struct:field, the embedded mutex has an empty field name)")
+			def("lock_ranks", "list (string * nat)", rb.String(), "a numbering of the mutexes compatible with lock_order_edges (empty when the edges have a cycle); Coq re-checks it")
+		}
 		// the broker streams' Send hands a reply channel to the stream goroutine and closes it when it returns (defer close(ch)):
 		// it must return only by receiving the reply, or the stream goroutine's reply is a send on a closed channel
 		waits := true
